@@ -570,9 +570,12 @@ def ob_operator(kind, et, seed):
     nloc = rows.shape[1]
     ncheck = 0
     dirs = range(nloc) if nloc <= 8 else sorted(rnd.sample(range(nloc), 6))
+    elems = range(g.Ne)
     if kind.startswith("gonzalez") and et != "TRI3":
         dirs = sorted(rnd.sample(range(nloc), 2))        # rational functions of t with many Gauss points: two seeded unit directions per element
-    for e in range(g.Ne):
+    if et in ("HEXA8", "PRISM6") or (kind.startswith("gonzalez") and et == "QUAD4"):
+        dirs, elems = sorted(rnd.sample(range(nloc), 2)), [0]      # 8 Gauss points x 24 dofs: two seeded unit directions of the first element
+    for e in elems:
         for a in dirs:
             d = [F(0)] * nd
             d[int(rows[e][a])] = F(1)
@@ -1135,7 +1138,9 @@ def build(tier, seed):
         obs.append(Ob(f"C18.law.{law}.ref", ob_law_ref, (law,), "P", (f"{LAWS}::{law}.Compute_W", f"{LAWS}::{law}.Compute_dWde"), clause="W == 0 and stress == 0 at C == I", timeout=600))
     kinds = ["pointwise", "gonzalez", "quadrature.1", "quadrature.2", "quadrature.3", "quadrature.newmark", "active", "kelvinvoigt.K", "kelvinvoigt.C"]
     for kind in kinds:
-        ets = ["TRI3", "TETRA4"] + (["QUAD4"] if kind == "pointwise" or thorough else []) + (["TRI6", "HEXA8", "PRISM6"] if thorough and kind in ("pointwise", "quadrature.3") else [])
+        # exact runs cost grows with (Gauss points x dofs): HEXA8 needs ~10 min per operator call and the Gonzalez rational functions on QUAD4 more; both are left to the native
+        # finite-difference obligations (C18.native.op.*), the exact ones cover TRI3 / QUAD4 / TETRA4 / TRI6 / PRISM6
+        ets = ["TRI3", "TETRA4"] + (["QUAD4"] if kind == "pointwise" or (thorough and kind != "gonzalez") else []) + (["TRI6", "PRISM6"] if thorough and kind in ("pointwise", "quadrature.3") else [])
         if kind == "gonzalez" and not thorough:
             ets = ["TRI3"]                 # rational functions of t: minutes per element type; the others run in the thorough tier and natively (finite differences) in both
         for et in ets:
